@@ -32,6 +32,10 @@ struct ThreadPlan {
     /// long mode: keep cycling through `ops` until an end-of-channel result (consumers) / for `reps` rounds
     reps: u32,
     until_end: bool,
+    /// observer thread: keeps cycling through its (observer) calls until every other thread is done
+    spin_obs: bool,
+    /// the script is run back to back (`ThreadCtx::exec_tight`)
+    tight: bool,
 }
 #[derive(Clone, Debug)]
 struct Program {
@@ -72,30 +76,30 @@ fn gen_obs(rng: &mut Rng, miri: bool, classes: &[&'static str]) -> Program {
         &[Op::RecvTimeout(20), Op::TryRecv, Op::DropR],
     ];
     // mutators: always one sender script; often a receiver script as well
-    threads.push(ThreadPlan { sender: Some(rng.chance(1, 2)), receiver: None, ops: rng.pick(&scripts_s).to_vec(), reps: 1, until_end: false });
+    threads.push(ThreadPlan { sender: Some(rng.chance(1, 2)), receiver: None, ops: rng.pick(&scripts_s).to_vec(), reps: 1, until_end: false, spin_obs: false, tight: rng.chance(3, 4) });
     if rng.chance(1, 2) {
-        threads.push(ThreadPlan { sender: None, receiver: Some(rng.chance(1, 2)), ops: rng.pick(&scripts_r).to_vec(), reps: 1, until_end: false });
+        threads.push(ThreadPlan { sender: None, receiver: Some(rng.chance(1, 2)), ops: rng.pick(&scripts_r).to_vec(), reps: 1, until_end: false, spin_obs: false, tight: rng.chance(3, 4) });
     }
     let nobs = if miri { 1 } else { 1 + rng.below(2) as usize };
     for k in 0..nobs {
         // the first observer looks from the receive side (it sees the senders leave), a second one from either
         let recv_side = k == 0 || rng.chance(1, 2);
         let pool: &[Op] = if recv_side {
-            &[Op::IsTerminated, Op::IsTerminated, Op::IsDisconnectedR, Op::Len, Op::IsEmpty, Op::IsFull, Op::SenderCount, Op::ReceiverCount, Op::IsClosed]
+            &[Op::IsTerminated, Op::IsTerminated, Op::IsTerminated, Op::IsDisconnectedR, Op::Len, Op::IsEmpty, Op::IsFull, Op::SenderCount, Op::ReceiverCount, Op::IsClosed]
         } else {
             &[Op::IsDisconnectedS, Op::IsDisconnectedS, Op::Len, Op::IsEmpty, Op::IsFull, Op::SenderCount, Op::ReceiverCount, Op::IsClosed]
         };
-        let n = if miri { 8 } else { 30 + rng.below(11) as usize };
-        // favour one observer per thread (half of the calls), the rest mixed
+        // one observer per thread, called over and over until the other threads are done (consecutive equal answers
+        // are merged into one event afterwards); under Miri a fixed handful of calls
         let fav = *rng.pick(pool);
-        let ops: Vec<Op> = (0..n).map(|_| if rng.chance(1, 2) { fav } else { *rng.pick(pool) }).collect();
-        threads.push(ThreadPlan { sender: (!recv_side).then(|| rng.chance(1, 2)), receiver: recv_side.then(|| rng.chance(1, 2)), ops, reps: 1, until_end: false });
+        let ops: Vec<Op> = if miri { (0..8).map(|_| if rng.chance(1, 2) { fav } else { *rng.pick(pool) }).collect() } else { vec![fav; 8] };
+        threads.push(ThreadPlan { sender: (!recv_side).then(|| rng.chance(1, 2)), receiver: recv_side.then(|| rng.chance(1, 2)), ops, reps: 1, until_end: false, spin_obs: !miri, tight: false });
     }
     Program { cap, class, async_ctor: rng.chance(1, 2), threads, delay_permille: 0 }
 }
 
 fn gen_short(rng: &mut Rng, miri: bool, classes: &[&'static str]) -> Program {
-    if rng.chance(1, 4) {
+    if rng.chance(1, 3) {
         return gen_obs(rng, miri, classes);
     }
     let cap = *rng.pick(&[Some(0), Some(0), Some(1), Some(2), None, Some(3)]);
@@ -152,7 +156,7 @@ fn gen_short(rng: &mut Rng, miri: bool, classes: &[&'static str]) -> Program {
             }
             ops.push(*rng.pick(&cand));
         }
-        threads.push(ThreadPlan { sender: s.then(|| rng.chance(1, 2)), receiver: r.then(|| rng.chance(1, 2)), ops, reps: 1, until_end: false });
+        threads.push(ThreadPlan { sender: s.then(|| rng.chance(1, 2)), receiver: r.then(|| rng.chance(1, 2)), ops, reps: 1, until_end: false, spin_obs: false, tight: false });
     }
     Program { cap, class, async_ctor: rng.chance(1, 2), threads, delay_permille: *rng.pick(&[0, 100, 300, 600]) }
 }
@@ -172,7 +176,7 @@ fn gen_churn(rng: &mut Rng, classes: &[&'static str], per_thread: u32, maxthread
             };
             ops.push(o);
         }
-        threads.push(ThreadPlan { sender: Some(rng.chance(1, 2)), receiver: Some(rng.chance(1, 2)), ops, reps: per_thread / 24 + 1, until_end: false });
+        threads.push(ThreadPlan { sender: Some(rng.chance(1, 2)), receiver: Some(rng.chance(1, 2)), ops, reps: per_thread / 24 + 1, until_end: false, spin_obs: false, tight: false });
     }
     Program { cap: *rng.pick(&[Some(0), Some(2), None]), class: *rng.pick(classes), async_ctor: rng.chance(1, 2), threads, delay_permille: *rng.pick(&[0, 0, 50]) }
 }
@@ -209,7 +213,7 @@ fn gen_long(rng: &mut Rng, classes: &[&'static str], caps: &[Option<usize>], per
             };
             ops.push(o);
         }
-        threads.push(ThreadPlan { sender: Some(rng.chance(1, 2)), receiver: None, ops, reps: per_thread / 16 + 1, until_end: false });
+        threads.push(ThreadPlan { sender: Some(rng.chance(1, 2)), receiver: None, ops, reps: per_thread / 16 + 1, until_end: false, spin_obs: false, tight: false });
     }
     for _ in 0..nc {
         let mut ops = Vec::new();
@@ -233,11 +237,11 @@ fn gen_long(rng: &mut Rng, classes: &[&'static str], caps: &[Option<usize>], per
             ops[0] = Op::Recv;
         }
         let reps = if ending == Ending::ReceiversLeave { per_thread / 64 + 1 } else { u32::MAX };
-        threads.push(ThreadPlan { sender: None, receiver: Some(rng.chance(1, 2)), ops, reps, until_end: true });
+        threads.push(ThreadPlan { sender: None, receiver: Some(rng.chance(1, 2)), ops, reps, until_end: true, spin_obs: false, tight: false });
     }
     if ending == Ending::CloseMid {
         // a closer (holds a sender handle, only closes)
-        threads.push(ThreadPlan { sender: Some(false), receiver: None, ops: vec![Op::Len, Op::SenderCount, Op::CloseS, Op::CloseS, Op::IsClosed], reps: 1, until_end: false });
+        threads.push(ThreadPlan { sender: Some(false), receiver: None, ops: vec![Op::Len, Op::SenderCount, Op::CloseS, Op::CloseS, Op::IsClosed], reps: 1, until_end: false, spin_obs: false, tight: false });
     }
     (Program { cap, class, async_ctor: rng.chance(1, 2), threads, delay_permille: *rng.pick(&[0, 0, 20, 100]) }, ending)
 }
@@ -266,6 +270,8 @@ fn run_program<T: Payload>(p: &Program, seed: u64, long: bool, closer_delay_us: 
     let n = p.threads.len();
     let span = if long { (l.n as u64 - payload::FIRST_UNIQUE) / n as u64 } else { 64 };
     let go = Arc::new(AtomicBool::new(false));
+    let done_mut = Arc::new(std::sync::atomic::AtomicUsize::new(0));
+    let n_mut = p.threads.iter().filter(|t| !t.spin_obs).count();
     let mut handles = Vec::new();
     let mut s0 = 0;
     let mut r0 = 0;
@@ -284,7 +290,8 @@ fn run_program<T: Payload>(p: &Program, seed: u64, long: bool, closer_delay_us: 
         }
         let tp = tp.clone();
         let go = go.clone();
-        let pre = rng.below(if long { 5 } else { 3000 });
+        let done_mut = done_mut.clone();
+        let pre = if tp.spin_obs { 0 } else { rng.below(if long { 5 } else { 3000 }) };
         let is_closer = long && tp.ops.contains(&Op::CloseS) && tp.ops.len() == 5;
         handles.push(
             std::thread::Builder::new()
@@ -307,7 +314,18 @@ fn run_program<T: Payload>(p: &Program, seed: u64, long: bool, closer_delay_us: 
                         std::thread::sleep(Duration::from_micros(closer_delay_us));
                     }
                     let mut rounds = 0u32;
+                    let mut after_done = false;
+                    if tp.tight {
+                        ctx.exec_tight(&tp.ops);
+                    }
+                    if tp.spin_obs {
+                        let dm = done_mut.clone();
+                        ctx.exec_spin(tp.ops[0], &move || dm.load(Ordering::Acquire) >= n_mut);
+                    }
                     'outer: loop {
+                        if tp.tight || tp.spin_obs {
+                            break;
+                        }
                         for op in &tp.ops {
                             if let Some(k) = ctx.exec(*op) {
                                 if tp.until_end {
@@ -330,12 +348,35 @@ fn run_program<T: Payload>(p: &Program, seed: u64, long: bool, closer_delay_us: 
                             }
                         }
                         rounds += 1;
+                        if tp.spin_obs {
+                            // one more full pass after the last mutator finished, then stop; bounded in any case
+                            if after_done || ctx.log.len() > 6000 {
+                                break;
+                            }
+                            after_done = done_mut.load(Ordering::Acquire) >= n_mut;
+                            continue;
+                        }
                         if rounds >= tp.reps {
                             break;
                         }
                     }
+                    if !tp.spin_obs {
+                        done_mut.fetch_add(1, Ordering::Release);
+                    }
                     ctx.finish();
                     slot.finish();
+                    if tp.spin_obs {
+                        // consecutive identical observations become one event spanning all of them (weaker, hence
+                        // never a false alarm: any linearization of the originals gives one of the merged event)
+                        let mut merged: Vec<Event> = Vec::new();
+                        for e in ctx.log.drain(..) {
+                            match merged.last_mut() {
+                                Some(l) if l.op == e.op && l.res == e.res && l.op.is_observer() => l.t1 = e.t1,
+                                _ => merged.push(e),
+                            }
+                        }
+                        return merged;
+                    }
                     ctx.log
                 })
                 .unwrap(),
